@@ -22,9 +22,10 @@ def peer_cfg(name, realm="r1", addrs=True, persistent=False, default=False, alwa
                 idle=idle, dwa=dwa, cer=cer, cea=cea)
 
 
-def app_cfg(name, app_id=4, auth=True, acct=False, peers=(), realms=(), kind="basic", max_threads=0, handler="hold"):
+def app_cfg(name, app_id=4, auth=True, acct=False, peers=(), realms=(), kind="basic", max_threads=0, handler="hold", late=False):
+    """late: the application is registered with the node by an `addapp` action while the node runs, not before start"""
     return dict(name=name, id=app_id, auth=auth, acct=acct, peers=list(peers), realms=list(realms), kind=kind,
-                max_threads=max_threads, handler=handler)
+                max_threads=max_threads, handler=handler, late=late)
 
 
 class VC:
@@ -93,7 +94,8 @@ class World:
         for a in self.cfg["apps"]:
             ao = make_app(self, a)
             self.apps[a["name"]] = ao
-            n.add_application(ao, [self.peers[x] for x in a["peers"]], a["realms"] or None)
+            if not a.get("late"):
+                n.add_application(ao, [self.peers[x] for x in a["peers"]], a["realms"] or None)
         self.conns: list[VC] = []
         self.fd2vc = {}
         self.fd2c = {}
@@ -140,6 +142,13 @@ class World:
         self.fd2vc[sock.fd] = vc
         vc.addr = addr
         return r
+
+    def add_app(self, name):
+        """Node.add_application for an application configured as `late`"""
+        a = next(x for x in self.cfg["apps"] if x["name"] == name)
+        self.s.emit("addapp", app=name)
+        self.node.add_application(self.apps[name], [self.peers[x] for x in a["peers"]], a["realms"] or None)
+        self.run()
 
     def c_of(self, conn):
         return getattr(conn, "vc_index", 0)
